@@ -466,10 +466,11 @@ Theorem lbc_names a na b nb u v : pair_ok a na b nb -> lbc_nodes a na b nb = Som
     ls_parent v = parent nb /\ ls_children v = remove_first a (children nb) /\ ls_root v = is_root nb)).
 Proof.
   intros Hok H. unfold lbc_nodes in H. pose proof (po_va _ _ _ _ Hok) as Hva. pose proof (po_vb _ _ _ _ Hok) as Hvb.
+  assert (Hv1 : 1 <= nvirt na /\ 1 <= nvirt nb).
+  { destruct (po_adj _ _ _ _ Hok) as [(Hin & Hp & _)|(Hin & Hp & _)]; apply remove_first_length in Hin;
+      unfold nvirt, nparents; rewrite Hp; lia. }
   assert (Hopen : nlegs na + nlegs nb - 2 - (nvirt na + nvirt nb - 2 + nopen na) = nopen nb).
-  { unfold nopen. destruct (po_adj _ _ _ _ Hok) as [(Hin & Hp & _)|(Hin & Hp & _)].
-    - apply remove_first_length in Hin. unfold nvirt, nparents in *. rewrite Hp in *. lia.
-    - apply remove_first_length in Hin. unfold nvirt, nparents in *. rewrite Hp in *. lia. }
+  { unfold nopen. lia. }
   destruct (po_adj _ _ _ _ Hok) as [(Hin & Hp & Hnin & _)|(Hin & Hp & Hnin & _)].
   - apply memb_false_nIn in Hnin. rewrite Hnin in H. apply memb_true_In in Hin. rewrite Hin in H. injection H as <- <-. cbn.
     rewrite Hopen. split; [reflexivity|]. split; [reflexivity|]. left. apply memb_true_In in Hin.
